@@ -303,31 +303,7 @@ End Postfix.
 (* ------------------------------------------------------------------ parse_arglist *)
 
 Lemma arglist_S f args kw ca ts :
-  arglist (S f) args kw ca ts
-  = match ts with
-    | [] => ParseError
-    | t :: r =>
-      let sc := match t with TComma => true | _ => false end in
-      if sc && negb ca then ParseError
-      else
-        let ts1 := if sc then r else ts in
-        match ts1 with
-        | [] => ParseError
-        | TRPar :: r' => Ok (args, kw, r')
-        | _ =>
-          if negb sc && ca then ParseError
-          else
-            match ts1 with
-            | TId k :: TAssign :: r2 =>
-              bind (parse_expr f PA_COMMA r2) (fun x => arglist f args (kw_set kw k (fst x)) true (snd x))
-            | _ =>
-              match kw with
-              | [] => bind (parse_expr f PA_COMMA ts1) (fun x => arglist f (args ++ [fst x]) kw true (snd x))
-              | _ => ParseError
-              end
-            end
-        end
-    end.
+  arglist (S f) args kw ca ts = arglist_body (parse_expr f) (arglist f) args kw ca ts.
 Proof. reflexivity. Qed.
 
 Definition starts_kw (ts : list token) : bool :=
@@ -344,13 +320,13 @@ Definition starts_ok (ts : list token) : bool :=
 Lemma AL_close args kw ca r : AL args kw ca (TRPar :: r) (args, kw, r).
 Proof.
   split; [cbn; lia|]. intros n Hn. destruct n as [|f]; [lia|].
-  rewrite arglist_S. cbn. destruct ca; reflexivity.
+  rewrite arglist_S; unfold arglist_body. cbn. destruct ca; reflexivity.
 Qed.
 
 Lemma AL_close_comma args kw r : AL args kw true (TComma :: TRPar :: r) (args, kw, r).
 Proof.
   split; [cbn; lia|]. intros n Hn. destruct n as [|f]; [lia|].
-  rewrite arglist_S. reflexivity.
+  rewrite arglist_S; unfold arglist_body. reflexivity.
 Qed.
 
 (* first item, positional *)
@@ -361,7 +337,7 @@ Lemma AL_pos_first args ts a ts' R :
   AL args [] false ts R.
 Proof.
   intros Hs Hk [_ H] Hlen [Hl HA]. split; [lia|].
-  intros n Hn. destruct n as [|f]; [lia|]. rewrite arglist_S.
+  intros n Hn. destruct n as [|f]; [lia|]. rewrite arglist_S; unfold arglist_body.
   destruct ts as [|t r]; [discriminate|].
   destruct t; try discriminate Hs; cbn [andb negb];
     try (rewrite H by lia; cbn [bind fst snd]; apply HA; lia).
@@ -378,7 +354,7 @@ Lemma AL_pos_next args ts a ts' R :
   AL args [] true (TComma :: ts) R.
 Proof.
   intros Hs Hk [_ H] Hlen [Hl HA]. split; [cbn [length]; lia|].
-  intros n Hn. destruct n as [|f]; [lia|]. rewrite arglist_S. cbn [andb negb length] in *.
+  intros n Hn. destruct n as [|f]; [lia|]. rewrite arglist_S; unfold arglist_body. cbn [andb negb length] in *.
   destruct ts as [|t r]; [discriminate|].
   destruct t; try discriminate Hs;
     try (rewrite H by (cbn [length] in *; lia); cbn [bind fst snd]; apply HA; cbn [length] in *; lia).
@@ -395,7 +371,7 @@ Lemma AL_kw_first args kw k ts v ts' R :
   AL args kw false (TId k :: TAssign :: ts) R.
 Proof.
   intros [_ H] Hlen [Hl HA]. split; [cbn [length]; lia|].
-  intros n Hn. destruct n as [|f]; [lia|]. rewrite arglist_S. cbn [andb negb length] in *.
+  intros n Hn. destruct n as [|f]; [lia|]. rewrite arglist_S; unfold arglist_body. cbn [andb negb length] in *.
   rewrite H by lia. cbn [bind fst snd]. apply HA; lia.
 Qed.
 
@@ -405,7 +381,7 @@ Lemma AL_kw_next args kw k ts v ts' R :
   AL args kw true (TComma :: TId k :: TAssign :: ts) R.
 Proof.
   intros [_ H] Hlen [Hl HA]. split; [cbn [length]; lia|].
-  intros n Hn. destruct n as [|f]; [lia|]. rewrite arglist_S. cbn [andb negb length] in *.
+  intros n Hn. destruct n as [|f]; [lia|]. rewrite arglist_S; unfold arglist_body. cbn [andb negb length] in *.
   rewrite H by lia. cbn [bind fst snd]. apply HA; lia.
 Qed.
 
